@@ -152,3 +152,69 @@ Fixpoint brun (dflt : T) (s : bstate) (ops : list bop) : list (option T) :=
   | o :: r => let '(s', out) := bstep dflt s o in out :: brun dflt s' r
   end.
 End Bound.
+
+(** ** the process-global bound together with several live solver objects
+    (utils/infbounds.rs: an atomic cell; DefaultProblemData::new reads it; Presolver keeps the value
+    it read; reverse_presolve uses the kept value; update_b never reads it).
+    Equilibration is off in this model (update_b then stores the new vector as it is). *)
+Section Global.
+Context {T : Type} (O : Ops T).
+Record solverM := mkSolver { sv_bound : T; sv_m : nat; sv_int : @internal T }.
+Record gstate := mkG { g_cell : T; g_solvers : list solverM }.
+Inductive gop :=
+| GSet (v : T) | GDefault | GGet
+| GNew (pe : bool) (A : @csc T) (b : list T) (cones : list cone)
+| GSolve (k : nat)
+| GUpdateB (k : nat) (nb : list T).
+Inductive gout :=
+| ONone
+| OGet (v : T)
+| ONew (keep : option (list bool)) (b : list T) (cones : list cone)
+| OSolve (keep : list bool) (sfill zfill : T) (b : list T)   (* fill pattern of the returned s, z; internal b *)
+| OUpd (accepted : bool) (b : list T)
+| ONoSolver.
+Definition keep_or_all (I : @internal T) (m : nat) : list bool :=
+  match ikeep I with Some k => k | None => repeat true m end.
+Definition set_ib (I : @internal T) (nb : list T) : @internal T :=
+  mkInternal (iA I) nb (icones I) (ikeep I).
+Definition gstep (dflt eps ten : T) (s : gstate) (o : gop) : gstate * gout :=
+  match o with
+  | GSet v => (mkG v (g_solvers s), ONone)
+  | GDefault => (mkG dflt (g_solvers s), ONone)
+  | GGet => (s, OGet (g_cell s))
+  | GNew pe A b cones =>
+      let I := build O pe eps ten (g_cell s) A b cones in
+      (mkG (g_cell s) (g_solvers s ++ [mkSolver (g_cell s) (length b) I]),
+       ONew (ikeep I) (ib I) (icones I))
+  | GSolve k =>
+      match nth_error (g_solvers s) k with
+      | Some sv => (s, OSolve (keep_or_all (sv_int sv) (sv_m sv)) (sv_bound sv) (zero O) (ib (sv_int sv)))
+      | None => (s, ONoSolver)
+      end
+  | GUpdateB k nb =>
+      match nth_error (g_solvers s) k with
+      | Some sv =>
+          let I := sv_int sv in
+          match ikeep I with
+          | Some _ => (s, OUpd false (ib I))                       (* PresolveIsActive *)
+          | None =>
+              if length nb =? 0 then (s, OUpd true (ib I))         (* empty input: no action *)
+              else if negb (length nb =? length (ib I)) then (s, OUpd false (ib I))
+              else (mkG (g_cell s)
+                        (set_nth (g_solvers s) k (mkSolver (sv_bound sv) (sv_m sv) (set_ib I nb))),
+                    OUpd true nb)
+          end
+      | None => (s, ONoSolver)
+      end
+  end.
+Fixpoint grun (dflt eps ten : T) (s : gstate) (ops : list gop) : list gout :=
+  match ops with
+  | [] => []
+  | o :: r => let '(s', out) := gstep dflt eps ten s o in out :: grun dflt eps ten s' r
+  end.
+Fixpoint gafter (dflt eps ten : T) (s : gstate) (ops : list gop) : gstate :=
+  match ops with
+  | [] => s
+  | o :: r => gafter dflt eps ten (fst (gstep dflt eps ten s o)) r
+  end.
+End Global.
